@@ -838,20 +838,21 @@ theorem tty_quit_typed (keys req rest : List Str) (h : tty keys = some (req, res
   exact ⟨g.1, fun hr => g.2 (by rw [hr]; decide)⟩
 
 /-- THE SESSION: for every keyboard transcript — blank lines, repeated Enter, the quit line anywhere — and every way of serving
-    requests whose outcome is ok or a member of the Errors.Error hierarchy with a printable error, `Interactive.run` is still at the
-    prompt when the keys are used up, or it has left through the quit command, which happens only when the quit line was typed. Nothing
-    else ends a session. -/
-theorem session_survives (oc : List Str → Except Exc Unit × Except Exc Unit)
-    (hoc : ∀ req, (match (oc req).1 with | .ok _ => True | .error x => x.inHierarchy = true) ∧ (oc req).2 = .ok ())
+    requests (depending on the request AND on everything served before) whose outcome is ok or a member of the Errors.Error hierarchy
+    with a printable error, `Interactive.run` is still at the prompt when the keys are used up, or it has left through the quit command,
+    which happens only when the quit line was typed. Nothing else ends a session. -/
+theorem session_survives (oc : List (List Str) → List Str → Except Exc Unit × Except Exc Unit)
+    (hoc : ∀ served req, (match (oc served req).1 with | .ok _ => True | .error x => x.inHierarchy = true) ∧ (oc served req).2 = .ok ())
     (keys : List Str) :
     (runKeys interactiveQuitTest oc keys).1 = .running ∨ ((runKeys interactiveQuitTest oc keys).1 = .quit ∧ ttyQuitLine ∈ keys) := by
-  have gen : ∀ (f : Nat) (keys : List Str),
-      (runKeysFuel interactiveQuitTest oc f keys).1 = .running ∨ ((runKeysFuel interactiveQuitTest oc f keys).1 = .quit ∧ ttyQuitLine ∈ keys) := by
+  have gen : ∀ (f : Nat) (served : List (List Str)) (keys : List Str),
+      (runKeysFuel interactiveQuitTest oc f served keys).1 = .running ∨
+        ((runKeysFuel interactiveQuitTest oc f served keys).1 = .quit ∧ ttyQuitLine ∈ keys) := by
     intro f
     induction f with
-    | zero => intro keys; exact Or.inl rfl
+    | zero => intro served keys; exact Or.inl rfl
     | succ f ih =>
-      intro keys
+      intro served keys
       unfold runKeysFuel
       cases ht : tty keys with
       | none => exact Or.inl rfl
@@ -863,18 +864,19 @@ theorem session_survives (oc : List Str → Except Exc Unit × Except Exc Unit)
         by_cases hq : req = ttyQuitResult
         · rw [if_pos hq]; exact Or.inr ⟨rfl, hs.2 hq⟩
         · rw [if_neg hq]
-          have hr := hoc req
-          have hl : step (.code (oc req).1 (oc req).2) = .running := by rw [hr.2]; exact loop _ hr.1
+          have hr := hoc served req
+          have hl : step (.code (oc served req).1 (oc served req).2) = .running := by rw [hr.2]; exact loop _ hr.1
           rw [hl]
-          rcases ih rest with h | h
+          rcases ih (req :: served) rest with h | h
           · exact Or.inl h
           · exact Or.inr ⟨h.1, hs.1 _ h.2⟩
-  exact gen _ keys
+  exact gen _ [] keys
 
 /-- the fuel of `runKeys` is never the reason a session stops: any two fuels above the number of keys give the same run -/
-theorem session_fuel_irrelevant (test : ReqTest) (oc : List Str → Except Exc Unit × Except Exc Unit) (f g : Nat) (keys : List Str)
-    (hf : keys.length < f) (hg : keys.length < g) : runKeysFuel test oc f keys = runKeysFuel test oc g keys := by
-  induction f generalizing g keys with
+theorem session_fuel_irrelevant (test : ReqTest) (oc : List (List Str) → List Str → Except Exc Unit × Except Exc Unit) (f g : Nat)
+    (served : List (List Str)) (keys : List Str)
+    (hf : keys.length < f) (hg : keys.length < g) : runKeysFuel test oc f served keys = runKeysFuel test oc g served keys := by
+  induction f generalizing g served keys with
   | zero => omega
   | succ f ih =>
     cases g with
@@ -887,11 +889,12 @@ theorem session_fuel_irrelevant (test : ReqTest) (oc : List Str → Except Exc U
         obtain ⟨req, rest⟩ := p
         have hlt := (tty_request_shape keys req rest ht).2.2
         simp only
-        rw [ih g rest (by omega) (by omega)]
+        rw [ih g (req :: served) rest (by omega) (by omega)]
 
-/-- non-vacuity: Enter, a failing request, Enter, Enter, a request, the quit line in the middle of the next request → 4 requests are
-    served (two of them empty), the 5th call of `tty` returns the quit command -/
-example : runKeys interactiveQuitTest (fun r => (if r = [['x']] then .error (Exc.ofErr .Syntax .other) else .ok (), .ok ()))
+/-- non-vacuity: Enter, a failing request, Enter, Enter, a request that fails only because `x` was served before, the quit line in the
+    middle of the next request → 4 requests are served (two of them empty), the 5th call of `tty` returns the quit command -/
+example : runKeys interactiveQuitTest
+    (fun served r => (if r = [['x']] ∨ (r = [['b']] ∧ [['x']] ∈ served) then .error (Exc.ofErr .Syntax .other) else .ok (), .ok ()))
     [[], ['x'], [], [], ['b'], [], ['c'], ['e', 'x', 'i', 't'], ['d']] = (.quit, 5) := by
   rfl
 
